@@ -42,6 +42,7 @@ func (c15) Run(t *tape.Tape, st *Stats) *Violation {
 	opaque := t.Chance(1, 8)
 	par := parallelismOf(t, rect.Dy())
 	sc, scDesc := DrawSchedule(t, [4]int{2, 3, 3, 4})
+	pre := drawEarlier(t, kind, rect)
 	snap := in.clone()
 	var arg image.Image = in.View
 	if opaque {
@@ -77,6 +78,17 @@ func (c15) Run(t *tape.Tape, st *Stats) *Violation {
 	sameType := !opaque && ((helper == 0 && kind == kNRGBA) || (helper == 1 && kind == kRGBA) || (helper == 2 && kind == kRGBA64))
 	simrt.ResetSteps(2000000) // a run of this size takes a few thousand steps; beyond the budget it is a livelock
 	defer simrt.ResetSteps(0)
+	pre.run(func() {
+		switch helper {
+		case 0:
+			prism.ConvertImageToNRGBA(pre.Img.View, pre.Par)
+		case 1:
+			prism.ConvertImageToRGBA(pre.Img.View, pre.Par)
+		default:
+			prism.ConvertImageToRGBA64(pre.Img.View, pre.Par)
+		}
+	})
+	simrt.ResetSteps(2000000)
 	racesBefore := simrt.RaceErrors()
 	var got image.Image
 	var atReturn [][]uint8
@@ -103,6 +115,7 @@ func (c15) Run(t *tape.Tape, st *Stats) *Violation {
 	st.Fault("preemption", sc.Kind != simrt.SerialPerm, res.NSwitch > par+1)
 	st.Fault("preemption_inside_worker_closure", sc.Kind == simrt.SiteBias, res.Probes[simrt.ProbeHotPreempt] > 0)
 	st.Probe("same_type_input", sameType)
+	st.Probe("earlier_call_in_the_same_run", pre.On)
 	st.Probe("sub_image_input", in.Parent.Bounds() != in.Rect)
 	st.Probe("parallel_path_taken", res.Tasks > 1)
 	st.Probe("empty_input", rect.Empty())
@@ -115,7 +128,7 @@ func (c15) Run(t *tape.Tape, st *Stats) *Violation {
 		}
 		st.Mark(h)
 	}
-	desc := fmt.Sprintf("%s(%s%v%s, parallelism %d)", name, kindNames[kind], in.Rect, subNote(in, opaque), par)
+	desc := fmt.Sprintf("%s(%s%v%s, parallelism %d)", name, kindNames[kind], in.Rect, subNote(in, opaque), par) + pre.Desc
 	render := func() interface{} {
 		return map[string]interface{}{"case": desc, "schedule": scDesc, "steps": res.Steps, "tasks": res.Tasks, "context_switches": SwitchList(res)}
 	}
@@ -131,7 +144,7 @@ func (c15) Run(t *tape.Tape, st *Stats) *Violation {
 		if class == "pixel-differs" {
 			sig += ":" + kindNames[kind]
 		}
-		return &Violation{Class: class, Sig: sig, Detail: detail + " [" + desc + "; " + scDesc + "]", Render: r}
+		return &Violation{Class: class, Sig: sig, Detail: detail + " [" + desc + "; " + scDesc + "]", Render: r, OwnHistory: pre.On}
 	}
 	if races > 0 {
 		lastRace = NewRaceText()
